@@ -120,6 +120,32 @@ def delta_pairs(rng, seed, n):
     return [[b.hex(), t.hex()] for b, t in out[:n] if len(b) <= 300 and len(t) <= 300]
 
 
+def big_pairs(rng, quick):
+    """(name, base, target): pairs whose deltas need copy sizes of 2 bytes, split copies above 64 KiB,
+    offsets of 2 and 3 bytes, inserts above 127 bytes -- too large for TLC's byte-level decoder; judged
+    by all four encoder x decoder pairings of the real code against the target."""
+    K = 1024
+    r70 = rng.randbytes(70 * K)
+    out = [
+        ("identical-70k", r70, r70),
+        ("identical-1000", r70[:1000], r70[:1000]),
+        ("common-run-300", b"<" + r70[:300] + b">", b"[" + r70[:300] + b"]"),
+        ("common-run-65535", b"\x00" * 65535 + b"\x07", b"\x09" + b"\x00" * 65535),
+        ("common-run-65536", b"\x00" * 65536 + b"\x07", b"\x09" + b"\x00" * 65536),
+        ("common-run-65537", b"\x00" * 65537 + b"\x07", b"\x09" + b"\x00" * 65537),
+        ("insert-300", b"A" * 10, rng.randbytes(300)),
+        ("insert-127", b"A" * 10, rng.randbytes(127)),
+        ("insert-128", b"A" * 10, rng.randbytes(128)),
+        ("offset-2-bytes", b"\x00" * 300 + r70[:200], r70[:200]),
+        ("offset-3-bytes", b"\x00" * (66 * K) + r70[:200], r70[:200]),
+        ("tail-of-70k", r70, r70[-500:]),
+        ("middle-edit-zero-runs", b"\x00" * (66 * K) + b"abc" + b"\x01" * (66 * K), b"\x00" * (66 * K) + b"xyzw" + b"\x01" * (66 * K)),
+    ]
+    if not quick:
+        out.append(("middle-edit-130k", r70 + b"0123456789" + r70[::-1], r70 + b"abcdefghijkl" + r70[::-1]))
+    return out
+
+
 def mutate_delta(rng, d: bytes) -> bytes:
     if rng.random() < 0.2:
         # widen a size header with continuation bytes
@@ -169,8 +195,8 @@ def merge_cases(rng, n):
 
 
 def blob_contents(rng, n):
-    alpha = [b"x", b"y", b"ab", b" ", b"\x00"]
-    out = [b"", b"\n", b"x" * 64, b"x" * 64 + b"\n", b"x" * 128 + b"x"]
+    alpha = [b"x", b"y", b"ab", b" ", b"\x00", b"\r"]
+    out = [b"", b"\n", b"x" * 64, b"x" * 64 + b"\n", b"x" * 128 + b"x", b"a\r\nb\r\n", b"x" * 63 + b"\r\n" + b"y"]
     while len(out) < n:
         lines = []
         pool = [b"".join(rng.choice(alpha) for _ in range(rng.choice((0, 1, 5, 30, 63, 64, 65, 130)))) for _ in range(4)]
